@@ -40,7 +40,7 @@ WEIGHTS = {"scenario": 0.5, "undo": 1.5, "redo": 1.0, "update_attrs": 1.5}
 
 
 def plan(tier, seed):
-    return common.session_plan(PROP, tier, seed, quick=2400, thorough=40000)
+    return common.session_plan(PROP, tier, seed, quick=7200, thorough=80000)
 
 
 def run_shard(spec):
